@@ -24,7 +24,7 @@ BOUNDS = {'quick': 'brackets: all strings of length <= 6; parser: all strings of
           'thorough': 'brackets length <= 8 (path budget), parser length <= 4, list failures length <= 6'}
 OUTSIDE = ['which exception numpy/LAPACK raise at poles/overflow (C boundary)', 'nesting deeper than the length bound (observed: RecursionError at depth ~50 becomes the generic student-facing error)',
            'full grader calls on symbolic formula strings beyond parsing (evaluation of symbolic numerals is not modelled)']
-DEADLINE = {'quick': 170, 'thorough': 2400}
+DEADLINE = {'quick': 600, 'thorough': 2400}
 FUNCS = ['AbstractGrader.__call__ (error wrapper)', 'AbstractGrader.ensure_text_inputs', 'ItemGrader.ensure_text_inputs', 'ListGrader.ensure_text_inputs', 'MathExpression.eval (error recasting)',
          'MathExpression.eval_function', 'BracketValidator.validate', 'MathParser.parse', 'SingleListGrader.check_response', 'mitxgraders.exceptions.*', 'helpers.calc.exceptions.*']
 STUBS = ['harness grader raising the selected exception', 'pyparsing leaf shims', 'stringgrader.str/re shims']
